@@ -10,10 +10,12 @@ ORACLE = the implementation's answers against §7.5.6 ("the newest section that 
 open OxiVerif OxiVerif.C04
 
 structure Rev where
-  kind : Char            -- 'c' | 's' | 'z'
+  kind : Char            -- 'c' | 's' | 'z' | 'h' | 'y'
   xnum : Nat
   objs : List Phys
   ents : Sect
+  hents : Sect := []                    -- entries of the /XRefStm stream (h / y)
+  prev : Option (Option Nat) := none    -- `@k` / `@-`
 
 def splitAt? (s : String) (seps : List Char) : Option (String × Char × String) :=
   let cs := s.toList
@@ -59,20 +61,36 @@ def parseEnt (s : String) : Option (Nat × Ent) :=
 def parseL {α} (s : String) (sep : String) (f : String → Option α) : Option (List α) :=
   if s = "." ∨ s = "" then some [] else (s.splitOn sep).mapM f
 
+def hasComp (es : Sect) : Bool :=
+  es.any (fun e => match e.2 with | .comp _ _ => true | _ => false)
+
 def parseRev (s : String) : Option Rev :=
   match s.splitOn ":" with
-  | [xk, objs, ents] =>
-    match xk.toList with
-    | k :: r =>
+  | [xkp, objs, ents] =>
+    let (xk, prevS) : String × Option String := match xkp.splitOn "@" with
+      | [a, b] => (a, some b)
+      | _ => (xkp, none)
+    let prev? : Option (Option (Option Nat)) := match prevS with
+      | none => some none
+      | some "-" => some (some none)
+      | some t => t.toNat?.map fun k => some (some k)
+    match xk.toList, prev? with
+    | k :: r, some prev =>
       let xnum := (String.ofList r).toNat?
-      if (k = 'c' ∧ r = []) ∨ ((k = 's' ∨ k = 'z') ∧ xnum.isSome) then
-        match parseL objs "+" parseObj, parseL ents "+" parseEnt with
-        | some os, some es =>
-          if k = 'c' ∧ es.any (fun e => match e.2 with | .comp _ _ => true | _ => false) then none
-          else some ⟨k, xnum.getD 0, os, es⟩
-        | _, _ => none
+      let hyb := k = 'h' ∨ k = 'y'
+      if (xkp.splitOn "@").length > 2 then none else
+      if (k = 'c' ∧ r = []) ∨ ((k = 's' ∨ k = 'z' ∨ hyb) ∧ xnum.isSome) then
+        let (tabS, stmS?) : String × Option String := match ents.splitOn "/" with
+          | [a, b] => (a, some b)
+          | _ => (ents, none)
+        if hyb ≠ stmS?.isSome ∨ (ents.splitOn "/").length > 2 then none else
+        match parseL objs "+" parseObj, parseL tabS "+" parseEnt, parseL (stmS?.getD ".") "+" parseEnt with
+        | some os, some es, some hs =>
+          if (k = 'c' ∨ hyb) ∧ hasComp es then none
+          else some ⟨k, xnum.getD 0, os, es, hs, prev⟩
+        | _, _, _ => none
       else none
-    | [] => none
+    | _, _ => none
   | _ => none
 
 def parseQuery (s : String) : Option (Nat × Nat) :=
@@ -156,8 +174,28 @@ def handle (req impl : String) : String × String :=
       if ¬ (mode = "strict" ∨ mode = "default") ∨ ¬ (dmg = "none" ∨ dmg = "nosx" ∨ dmg = "badsx") then
         ("bad-request", "na")
       else
+      if revs.any (fun r => match r.prev with | some (some k) => k ≥ revs.length | _ => false) then
+        ("bad-request", "na")
+      else
       let ph := physOf revs
-      let chain := (revs.map (·.ents)).reverse      -- newest first
+      -- the /Prev walk from the newest section (the one `startxref` names)
+      let prevOf : Nat → Option Nat := fun i =>
+        match revs[i]? with
+        | some r => (match r.prev with
+          | none => if i = 0 then none else some (i - 1)
+          | some p => p)
+        | none => none
+      let order := if revs.isEmpty then [] else walkPrev prevOf (revs.length + 1) (revs.length - 1) []
+      -- a walk that ended at a section seen before is a /Prev loop: not a valid file
+      let looped : Bool := match order.getLast? with
+        | some l => (match prevOf l with | some p => order.contains p | none => false)
+        | none => false
+      let redirected : Bool := revs.any (·.prev.isSome)
+      -- what the code merges / what §7.5.6 + §7.5.8.4 prescribe (newest first)
+      let chainImpl := order.filterMap fun i => revs[i]?.map fun r => hybridSectImpl r.ents r.hents
+      let chain := order.filterMap fun i => revs[i]?.map fun r =>
+        if r.kind = 'h' ∨ r.kind = 'y' then hybridSect r.ents r.hents else r.ents
+      let hybridHidden : Bool := revs.any fun r => !r.hents.isEmpty
       let fuel := ph.length + 2
       let recovery := dmg ≠ "none"
       if recovery ∧ mode = "strict" then
@@ -165,8 +203,16 @@ def handle (req impl : String) : String × String :=
         ("open-err:xref", "na")
       else
       let table := if recovery then addHeadersLatestWins Table.empty (headersOf ph) false
-                   else merge chain
-      let model := qs.map fun (n, g) => showRes (load table ph fuel n g)
+                   else merge chainImpl
+      let model0 := qs.map fun (n, g) => showRes (load table ph fuel n g)
+      -- `manual` = the reader's whole-file text search for a number of its hard-wired list that no
+      -- merged section mentions but that is physically present (orphaned / hidden objects): outside
+      -- the model, the implementation's answer is taken over at these positions (the ORACLE still
+      -- judges them)
+      let implMain := ((impl.splitOn "!").headD "").splitOn ","
+      let model := if implMain.length = model0.length then
+          (List.zip model0 implMain).map fun (m, i) => if m = "manual" then i else m
+        else model0
       let modelS := if model.isEmpty then "." else ",".intercalate model
       -- IMPL = answers in the given order, then `!<order>:<answers>` for every order of asking
       -- (on one reader) that answered differently
@@ -178,7 +224,8 @@ def handle (req impl : String) : String × String :=
         | [] => ("?", "")
       let lists : List (String × List String) :=
         ("given", mainS.splitOn ",") :: extras.map fun (nm, l) => (nm, l.splitOn ",")
-      if ¬ wfPlan chain ph then (modelS, "na") else
+      if ¬ wfPlan chain ph ∨ looped = true ∨ (recovery ∧ redirected = true) then (modelS, "na") else
+      if ¬ (revs.all fun r => nodupNums (r.ents.map (·.1)) ∧ nodupNums (r.hents.map (·.1))) then (modelS, "na") else
       if lists.any (fun l => l.2.length ≠ qs.length) ∨ impl.startsWith "open-err" then
         (modelS, "fail:other the file does not open / answer count differs")
       else
@@ -197,6 +244,9 @@ def handle (req impl : String) : String × String :=
             -- the given order may be right and another order of asking the same reader is not:
             -- the answer depends on what the reader was asked before
             ("answer-depends-on-order", s!"obj={n} got={got} want={want}{tag}")
+          else if ¬ recovery ∧ hybridHidden = true ∧ newest chainImpl n ≠ nw then
+            -- the newest definition is only reachable through a /XRefStm stream
+            ("xrefstm-of-hybrid-file-ignored", s!"obj={n} got={got} want={want}{tag}")
           else if ¬ recovery ∧ ¬ isComp nw ∧ staleCopy chain ph fuel n = some got then
             ("stale-compressed-copy-wins", s!"obj={n} got={got} want={want}{tag}")
           else if recovery ∧ isComp nw ∧
